@@ -10,6 +10,7 @@ from ..ref import http as refhttp
 from ..ref import utf8 as refutf8
 
 LEVEL = 'exploration'
+TECHNIQUE = 'runtime monitoring: exhaustive two-byte header sweep + generated violating streams judged by an independent RFC 6455 classifier'
 BUDGET_S = {'quick': 35, 'thorough': 280}
 REQUIRED = {'all': ['oracle.violation_runs_judged', 'sweep.headers_judged', 'oracle.violation_while_client_closing_runs']}
 RULE = ('(a) exhaustive sweep of all 65536 two-byte frame headers, each completed into a frame and fed '
